@@ -90,7 +90,8 @@ CLAIMS = {
             "every operation route one hash of the operation's own key to bucket, split-order key and list head; the bucket-count exponent grows by "
             "one through a CAS from the value read, only below capacity; bucket-table reader and writer use the same segment/offset arithmetic "
             "(and segments are freed only at tear-down or unpublished); MichaelHashSet routes every operation to bucket(hash(key) & mask) of its "
-            "own key; HP/DHP guard typestate; RCU read-lock discipline incl. unguarded dereferences of shared nodes outside a lock scope. "
+            "own key and keyed operations return only after consulting that bucket (R14.9); HP/DHP guard typestate; RCU read-lock discipline incl. "
+            "unguarded dereferences of shared nodes outside a lock scope. "
             "Linearizability, duplicates under races and Feldman expansion interleavings are NOT decided (Feldman addressing: C28).",
             "static analysis: typestate / value-numbered path tables on enumerated CFG paths + belief propagation over the call graph", "DESIGN.md §4 C14"),
     "C15": ("other", "Path rules over skip lists and trees: HP/DHP guard typestate; RCU read-lock discipline (skip list, Ellen tree, Bronson map) "
@@ -119,7 +120,8 @@ CLAIMS = {
             "exactly once. SplitList/Feldman growth is not covered here.", PATHS, "DESIGN.md §4 C17"),
     "C18": ("other", "The size()/empty() clause plus one necessary condition of the skip-list level property (link positions are written only "
             "by the key-ordered search routines; the level-L link CAS swings pos.pPrev[L]->next(L) from pos.pSucc[L] to the node). Size clause: in the ordered containers the item counter changes at most once per operation and only on "
-            "success paths, every inserting/removing public member reaches a counter change of the right direction, size() reports the counter. "
+            "success paths, every inserting/removing public member reaches a counter change of the right direction, size() reports the counter; "
+            "EllenBinTree::try_insert applies the same setters to the node it publishes on every publishing path (R18.6). "
             "Sortedness, exactly-once traversal, tree order, AVL balance, skip-list level property are runtime heap shape: NOT decided.",
             "static analysis: path tables (value numbering) + call-graph reachability of counter effects", "DESIGN.md §4 C18"),
     "C19": ("other", "Path rules over IterableList::iterator_type and FeldmanHashSet::iterator_base (HP/DHP): whatever an iterator exposes is read "
@@ -160,7 +162,8 @@ CLAIMS = {
             "static analysis: abstract interpretation in a bit-provenance domain and a SWAR lane domain + affine normal forms + type-level lint", "DESIGN.md §4 C25"),
     "C27": ("proof", "For ALL 64-bit hashes: regular keys odd / dummies even / both the reversed hash, for each reversal algorithm; bucket_no = "
             "hash mod 2^k and parent_bucket clears exactly the top set bit for every k = 0..63 in all three split-list implementations "
-            "(other bits symbolic). Not decided: the contiguity lemma over the list order.",
+            "(other bits symbolic); the wrapped list comparators order split-order keys by relational operators on the unsigned values (R27.4). "
+            "Not decided: the contiguity lemma over the list order.",
             "static analysis: abstract interpretation in a bit-provenance domain (exhaustive over the 64 table sizes) + type-level lint",
             "DESIGN.md §4 C27"),
     "C28": ("other", "Agreement rules over the Feldman multi-level array: head level addressed with head_node_size_log bits, deeper levels with "
